@@ -98,6 +98,12 @@ Convert(D, src, n, tgt) ==
          ELSE IF DurOk(n) THEN Same
          ELSE IF "DurationNoOverflowCheck" \in D THEN Wrapped ELSE Err
 
+\* The typed unpacker interfaces (unpack.go) are targets of these conversions: a field, a pointer, a slice element or a map
+\* value whose type implements one of them is handed exactly what the conversion to the named target yields, or Unpack
+\* fails (the replay's routes unp-field, unp-ptr, unp-pre, unp-elem, unp-pelem, unp-mapval; BoolUnpacker and StringUnpacker
+\* are targets "bool" and "string" of Gen_ConvText)
+UnpackerTarget == [IntUnpacker |-> "int64", UintUnpacker |-> "uint64", FloatUnpacker |-> "float64", BoolUnpacker |-> "bool", StringUnpacker |-> "string"]
+
 \* C03: there is no third outcome
 NoWrap(r) == "err" \in DOMAIN r \/ r.ok \in {"val", "same"}
 ==========================================================================
